@@ -13,17 +13,21 @@ rsync -a --delete --exclude target /verif/harness/ /tmp/seedharness/
 sed -i 's#/repo/rtmp#/tmp/seedrepo/rtmp#; s#/repo/amf0#/tmp/seedrepo/amf0#' /tmp/seedharness/Cargo.toml
 cp /verif/KNOWN_FINDINGS.txt /tmp/seedroot/
 caught=0; total=0
+HEADC=$(git -C /repo rev-parse HEAD)
 for d in /verif/seeded/$PAT/; do
   [ -f "$d/patch.diff" ] || continue
   name=$(basename "$d"); P=${name%%_*}
   base=$(python3 -c "import json,sys; print(json.load(open(sys.argv[1]))['base_commit_of_repo'].split()[0])" "$d/meta.json")
-  git -C /tmp/seedrepo checkout -q -- . ; git -C /tmp/seedrepo checkout -q --detach "$base" || { echo "$name: cannot check out $base"; continue; }
-  git -C /tmp/seedrepo apply "$d/patch.diff" || { echo "$name: patch does not apply on $base"; continue; }
+  # on the current HEAD of /repo when the patch still applies there (so that defects repaired since
+  # the change was written do not do the catching), otherwise on the commit it was written against
+  git -C /tmp/seedrepo checkout -q -- . ; git -C /tmp/seedrepo checkout -q --detach "$HEADC"
+  if git -C /tmp/seedrepo apply --check "$d/patch.diff" 2>/dev/null; then on=HEAD; else on=$base; git -C /tmp/seedrepo checkout -q --detach "$base" || { echo "$name: cannot check out $base"; continue; }; fi
+  git -C /tmp/seedrepo apply "$d/patch.diff" || { echo "$name: patch does not apply on $on"; continue; }
   ( cd /tmp/seedharness && cargo build --release --offline >/tmp/seedroot/build.log 2>&1 ) || { echo "$name: harness does not build"; continue; }
   out=$(RMLV_ROOT=/tmp/seedroot /tmp/seedharness/target/release/rmlv run $P --tier quick --seed 13 2>&1); code=$?
   sig=$(echo "$out" | grep -E "^  signature:" | head -1 | sed 's/^  signature: //' | cut -c1-100)
   total=$((total+1)); [ $code -eq 1 ] && caught=$((caught+1))
-  echo "$name target=$P exit=$code $sig"
+  echo "$name target=$P on=$on exit=$code $sig"
 done
 git -C /tmp/seedrepo checkout -q -- .
 git -C /repo worktree remove --force /tmp/seedrepo; rm -rf /tmp/seedharness /tmp/seedroot
